@@ -87,6 +87,7 @@ var profiles = map[string]Profile{
 }
 
 type Gen struct {
+	noProbe bool
 	rnd     *rand.Rand
 	w       *World
 	prof    Profile
@@ -232,7 +233,10 @@ func (g *Gen) validReceipt() (r, h, s []byte) {
 }
 
 // Request builds a random request for connection c.
-func (g *Gen) Request(c int) *wire.Req {
+func (g *Gen) Request(c int) *wire.Req { return g.RequestOf(c, "") }
+
+// RequestOf builds a request of the given kind ("" = by the profile's weights) for connection c.
+func (g *Gen) RequestOf(c int, forceKind string) *wire.Req {
 	k := g.w.know
 	sid := -1
 	pid := 0
@@ -240,7 +244,10 @@ func (g *Gen) Request(c int) *wire.Req {
 		sid, pid = j[0], j[1]
 	}
 	_ = pid
-	kind := g.pickKind()
+	kind := forceKind
+	if kind == "" {
+		kind = g.pickKind()
+	}
 	if sid < 0 && g.rnd.Intn(8) > 0 && kind != "ping" && kind != "receipt" {
 		kind = "join" // connections that are not in a session mostly try to join
 	}
@@ -467,7 +474,108 @@ func (g *Gen) Run(steps int) {
 		}
 	}
 	g.settle()
-	g.probe()
+	if !g.noProbe {
+		g.probe()
+	}
+}
+
+// RunPrefix is Run without the final probe: the sequential part of a history that ends in a concurrent block.
+func (g *Gen) RunPrefix(steps int) {
+	g.noProbe = true
+	g.Run(steps)
+}
+
+// pickConcurrent chooses k live connections and queues, for each, one request whose handling by several goroutines
+// at once is interesting (membership, ids, relays, registries); a connection may instead be marked to disconnect.
+// The requests are received (queued) here; handling them is the concurrent block.
+func (g *Gen) pickConcurrent(k int) []int {
+	live := g.liveConns()
+	g.rnd.Shuffle(len(live), func(i, j int) { live[i], live[j] = live[j], live[i] })
+	kinds := []string{"join", "join", "entityAdd", "entityAdd", "entityDelete", "custom", "typeAdd", "compAdd", "compDelete", "subscribe",
+		"unsubscribe", "action", "assetAdd", "signedLatency", "compList"}
+	shared := names[g.rnd.Intn(len(names))]
+	// two blocks in three are built around one session: members that change it or relay in it, members that leave it
+	// (by switching), outsiders that join it - the combinations the locks of a session have to survive
+	bySession := map[int][]int{}
+	var outsiders []int
+	for _, c := range live {
+		if j, ok := g.w.know.joined[c]; ok {
+			bySession[j[0]] = append(bySession[j[0]], c)
+		} else {
+			outsiders = append(outsiders, c)
+		}
+	}
+	target := -1
+	for _, sid := range sortedKeys(g.w.know.sids) {
+		if len(bySession[sid]) >= 2 || (len(bySession[sid]) >= 1 && len(live) > len(bySession[sid])) {
+			target = sid
+			break
+		}
+	}
+	if target >= 0 && g.rnd.Intn(3) > 0 {
+		members := bySession[target]
+		var chosen []int
+		plan := map[int]string{}
+		relay := []string{"custom", "custom", "entityAdd", "entityDelete", "action", "assetAdd", "compAdd", "compDelete", "typeAdd", "subscribe"}
+		for _, c := range live {
+			if len(chosen) == k {
+				break
+			}
+			isMember := false
+			for _, m := range members {
+				if m == c {
+					isMember = true
+				}
+			}
+			switch {
+			case isMember && len(chosen) == 0:
+				plan[c] = relay[g.rnd.Intn(len(relay))]
+			case isMember:
+				plan[c] = []string{"leave", "custom", "entityAdd", "leave"}[g.rnd.Intn(4)]
+			default:
+				plan[c] = "enter"
+			}
+			chosen = append(chosen, c)
+		}
+		sortInts(chosen)
+		for _, c := range chosen {
+			var r *wire.Req
+			switch plan[c] {
+			case "leave": // switching to a new session leaves the target
+				r = g.RequestOf(c, "join")
+				r.Target, r.TargetN = "new", 0
+			case "enter":
+				r = g.RequestOf(c, "join")
+				r.Target, r.TargetN = "id", uint32(target)
+			case "custom":
+				r = g.RequestOf(c, "custom")
+				r.Pids = nil
+				for p := 1; p <= g.w.know.maxPid[target]; p++ { // addressed: goes through BroadcastTo
+					r.Pids = append(r.Pids, uint32(p))
+				}
+			default:
+				r = g.RequestOf(c, plan[c])
+				if plan[c] == "typeAdd" {
+					r.Str = shared
+				}
+			}
+			g.w.Recv(c, r)
+		}
+		return chosen
+	}
+	if len(live) > k {
+		live = live[:k]
+	}
+	sortInts(live)
+	for _, c := range live {
+		kind := kinds[g.rnd.Intn(len(kinds))]
+		r := g.RequestOf(c, kind)
+		if kind == "typeAdd" && g.rnd.Intn(2) == 0 {
+			r.Str = shared // the same new name from several participants at once
+		}
+		g.w.Recv(c, r)
+	}
+	return live
 }
 
 // settle flushes every pending update and handles every queued message.
